@@ -205,6 +205,19 @@ def escalate {σ : Type} (cfg : Cfg) (prev target : Level) (secret : Bytes) (dev
     sendInteractive (escCfg cfg) (escalateComplete prev target) dev
       (escalateEvents target secret) s
 
+/-- `network.Driver.SendInteractive(events, WithPrivilegeLevel(l))`: `AcquirePriv` of the requested
+    (or default desired) level first — here any operation `acquire` on the session — and only when
+    that returned no error the generic driver's `SendInteractive`, on the session state it left.
+    An error of the acquisition is returned as it is. -/
+def netSendInteractive {σ : Type} (acquire : St σ → Run σ) (cfg : Cfg)
+    (complete : List (Bytes → Bool)) (dev : Dev σ) (evs : List Event) (s : St σ) : Run σ :=
+  let a := acquire s
+  match a.res with
+  | none => a
+  | some _ =>
+    let r := sendInteractive cfg complete dev evs a.st
+    { res := r.res, segs := a.segs ++ r.segs, st := r.st }
+
 /-- everything written, in order -/
 def writesOf : List Ev → List Bytes
   | [] => []
